@@ -1,5 +1,6 @@
 import RSV.Props.C17
 import RSV.Props.C17leo
+import RSV.Props.C17gf16
 /-! C17 umbrella: static GF(2^8) tables (`RSV.Props.C17`) and Leopard GF(2^8) run-time tables and constants
 (`RSV.Props.C17leo`) -/
 namespace RSV.Props.C17all
